@@ -83,23 +83,24 @@ def case_trajectories(rec, n_steps):
                 else:
                     cls = T.MultinomialDynamicIntegrationTransition if tk == "multinomial" else T.SliceDynamicIntegrationTransition
                     tr = cls(system, integ, max_tree_depth=2)
-                rng = np.random.default_rng(4)
-                st = CL.ChainState(pos=np.array([0.4, -0.3]), mom=np.array([0.2, 0.5]), dir=1)
-                positions = set()
-                for it in range(3):
-                    g0 = cnt["grad"]
-                    st, stats = tr.sample(st, rng)
-                    steps = int(stats["n_step"])
-                    new_grads = cnt["grad"] - g0
-                    n += 1
-                    # first transition: n + 1 gradient evaluations, later ones: n (start position cached across the copy)
-                    limit = steps + (1 if it == 0 else 1)
-                    if new_grads > limit:
-                        viol.setdefault(f"{tk}:{conv}", f"{tk} ({conv}) iteration {it}: {new_grads} gradient evaluations for {steps} leapfrog steps (limit {limit})")
-                    # (the Hamiltonian of the very first state is requested before any derivative: one legitimate evaluation)
-                    if conv == "aux" and cnt["nld"] > 1:
-                        viol.setdefault(f"{tk}:aux-values", f"{tk}: neg_log_dens evaluated {cnt['nld']} times although the gradient returns the value")
-                    st.mom = rng.standard_normal(2)
+                for seed in range(4, 10):  # several direction / selection draw sequences per configuration
+                    rng = np.random.default_rng(seed)
+                    st = CL.ChainState(pos=np.array([0.4, -0.3]), mom=np.array([0.2, 0.5]), dir=1)
+                    cnt["grad"] = cnt["nld"] = 0
+                    for it in range(3):
+                        g0 = cnt["grad"]
+                        st, stats = tr.sample(st, rng)
+                        steps = int(stats["n_step"])
+                        new_grads = cnt["grad"] - g0
+                        n += 1
+                        # first transition: n + 1 gradient evaluations, later ones: n (start position cached across the copy)
+                        limit = steps + (1 if it == 0 else 1)
+                        if new_grads > limit:
+                            viol.setdefault(f"{tk}:{conv}", f"{tk} ({conv}) iteration {it}: {new_grads} gradient evaluations for {steps} leapfrog steps (limit {limit})")
+                        # (the Hamiltonian of the very first state is requested before any derivative: one legitimate evaluation)
+                        if conv == "aux" and cnt["nld"] > 1:
+                            viol.setdefault(f"{tk}:aux-values", f"{tk}: neg_log_dens evaluated {cnt['nld']} times although the gradient returns the value")
+                        st.mom = rng.standard_normal(2)
     rec.paths = n
     for k, msg in viol.items():
         rec.candidate(key=f"trajectory:{k}", label=msg, payload={"trajectory": k})
